@@ -12,7 +12,8 @@ without it), `meta.json` (property, what it breaks, what it needs to manifest), 
 worktree: compiles, full suite green with the change, demo fails with / passes without) and `result.json` (exit status and
 VIOLATION line of `./check <property> <tier>` with the patch applied to /repo, patch reverted afterwards).
 `*-A`/`*-B`: first round, `*-C`/`*-D`: second round, `*-E` (a change in shared low-level infrastructure) / `*-F` (two
-cooperating edits, each harmless alone): third round of independent sub-agents (they saw only the property text);
+cooperating edits, each harmless alone): third round, `*-G` (wrong only at a boundary of a numeric or size parameter) /
+`*-H` (stateful use or refusal paths): fourth round of independent sub-agents (they saw only the property text);
 `F*`: return of a repaired defect (reverse of the `fix:` commit).
 
 | seed | property | confirmed | tier | reported as | wall s | change |
